@@ -107,6 +107,8 @@ fn main() {
                     std::fs::copy(r, ops).ok();
                 }
                 phys::replay(ops, imp)
+            } else if args.iter().any(|a| a == "--huge-cycle") {
+                phys::huge_cycle()
             } else if args.iter().any(|a| a == "--huge-handles") {
                 phys::huge_handles(ops)
             } else if let Some(dir) = arg(&args, "--huge") {
